@@ -253,28 +253,64 @@ def c2_codec(fb, rep):
     # probe / insert compare the decoded key with the probing key before using the record
     pr = fb.find1(TT + '::probe')
     if rep.need(clause, pr, TT + '::probe'):
-        def keycmp(e):
-            return isinstance(e, dict) and e.get('k') == 'bin' and e.get('op') == '==' and \
-                any(n.get('k') == 'call' and cname(n) == ENT + '::getKey' for n in walk(e)) and \
-                any(n.get('k') == 'var' and n.get('n') == 'key' for n in walk(e))
-        brs = R.branch_blocks(pr, keycmp)
-        rep.floor(clause, 'key comparisons in probe', len(brs), 1)
-        # every write to the out-parameter `result` other than setType(T_EMPTY) is on the true side
-        for b, i, e in pr.events():
-            is_copy = (e.get('k') == 'call' and cname(e).endswith('TTEntry::operator=') and e.get('recv') is not None and
-                       e['recv'].get('k') == 'var' and e['recv'].get('n') == 'result') or \
-                      (e.get('k') == 'asg' and isinstance(e.get('l'), dict) and e['l'].get('n') == 'result')
-            if not is_copy:
-                continue
-            doms = pr.dominators().get(b, set())
-            ok = any(t == b or t in doms for _, _, t, _ in brs)
-            rep.ob(clause, 'K4 guard', 'probe: the record is handed out only after the decoded key matched', ok, R.site(pr, e), '', pr.sname)
+        from ..flow import Flow
+        key_ids = {p_['id'] for p_ in pr.d.get('params', []) if 'TTEntry' not in (p_.get('t') or '')}
+        out_ids = {p_['id'] for p_ in pr.d.get('params', []) if 'TTEntry' in (p_.get('t') or '')}
+        ents = {v['id'] for _, _, e in pr.events() if e.get('k') == 'decl' for v in e.get('vars', []) if 'TTEntry' in (v.get('t') or '')}
+        viol = {}
+        n_cmp = [0]
+
+        def ent_of(t):
+            t = _strip(t)
+            while isinstance(t, dict) and t.get('k') == 'ctor' and len(t.get('args', [])) == 1:
+                t = _strip(t['args'][0])
+            return t.get('id') if isinstance(t, dict) and t.get('k') == 'var' and t.get('id') in ents else None
+
+        def transfer(e, st, pos):
+            d = dict(st)
+            k = e.get('k')
+            if k == 'call':
+                n = cname(e)
+                r = ent_of(e.get('recv')) if e.get('recv') is not None else None
+                if n == ENT + '::load' and r is not None:
+                    d[r] = 'RAW'
+                    return [tuple(sorted(d.items()))]
+                if n == ENT + '::store' and r is not None and d.get(r) == 'RAW':
+                    viol[pos] = ('a record is written back to the table although the key of what was last loaded into it has not been compared', e)
+                if n.endswith('TTEntry::operator=') and e.get('recv') is not None and _strip(e['recv']).get('id') in out_ids:
+                    src = ent_of((e.get('args') or [None])[0])
+                    if src is not None and d.get(src) == 'RAW':
+                        viol[pos] = ('the record handed to the caller was loaded after the last key comparison', e)
+            if k == 'asg' and isinstance(_strip(e.get('l')), dict) and _strip(e['l']).get('id') in out_ids:
+                src = ent_of(e.get('r'))
+                if src is not None and d.get(src) == 'RAW':
+                    viol[pos] = ('the record handed to the caller was loaded after the last key comparison', e)
+            return [st]
+
+        def refine(atom, tv, st):
+            a = _strip(atom)
+            if isinstance(a, dict) and a.get('k') == 'bin' and a.get('op') in ('==', '!='):
+                for x, y in ((a['l'], a['r']), (a['r'], a['l'])):
+                    x0, y0 = _strip(x), _strip(y)
+                    if isinstance(x0, dict) and x0.get('k') == 'call' and cname(x0) == ENT + '::getKey' and ent_of(x0.get('recv')) is not None and \
+                            isinstance(y0, dict) and y0.get('k') == 'var' and y0.get('id') in key_ids:
+                        n_cmp[0] += 1
+                        if (a['op'] == '==') == bool(tv):
+                            d = dict(st)
+                            d[ent_of(x0['recv'])] = 'OK'
+                            return [tuple(sorted(d.items()))]
+            return [st]
+        fl = Flow(pr, transfer, refine).run({()})
+        rep.floor(clause, 'key comparisons in probe', 1 if n_cmp[0] else 0, 1)
+        first = sorted(viol.items())[0][1] if viol else None
+        rep.ob(clause, 'K3 typestate', 'probe: a loaded record is written back or handed out only after the key decoded from that very load matched the probing key', not viol and not fl.overflow,
+               R.site(pr, first[1]) if first else pr.where, '; '.join('line %s: %s' % (e.get('ln'), w) for _, (w, e) in sorted(viol.items())), pr.sname)
         # the miss path marks the result empty
         def set_empty(e):
             return e is not None and e.get('k') == 'call' and cname(e) == ENT + '::setType' and isinstance((e.get('args') or [None])[0], dict) and e['args'][0].get('cv') == 0
         def copy_out(e):
             return e is not None and ((e.get('k') == 'call' and cname(e).endswith('TTEntry::operator=')) or
-                                      (e.get('k') == 'asg' and isinstance(e.get('l'), dict) and e['l'].get('n') == 'result'))
+                                      (e.get('k') == 'asg' and isinstance(_strip(e.get('l')), dict) and _strip(e['l']).get('id') in out_ids))
         w = pr.path_avoiding((pr.entry, -1), R.at_exit, lambda e: set_empty(e) or copy_out(e))
         rep.ob(clause, 'K2 must-pass-through', 'probe: every path returns a validated record or T_EMPTY', w is None, pr.where, '', pr.sname)
 
